@@ -363,4 +363,52 @@ def solve (P : Problem S U α ρ) (g : ρ) (starts : List S) (draws : List (Draw
       { status := if st.isApprox then .approximate else .exact, dif := st.closest, path := assemble P st.motions l,
         final := st }
 
+/-! ### a later `solve()` on the same planner object
+
+`solve` re-derives its flags from `lastGoalMotion_`: `hasSolution = lastGoalMotion_ != nullptr`,
+`isApproximate = !hasSolution || !goal->isSatisfied(lastGoalMotion_->endState_, &closestDistanceToGoal)`, and — since
+fix 2f8c24625 — returns `EXACT_SOLUTION` at once only if the *problem definition still holds an exact solution*
+(`pdef_->hasExactSolution()`, the parameter `pdefHasExact`: an oracle about the caller's `ProblemDefinition`, which may have
+been cleared or replaced).  Otherwise it falls through: start states handed out by `pis_.nextStart()` since the last call
+(`newStarts`) enter the **leaf** cell that contains them (fix eb25d2355: `bsp_->stab(proj)->addMotion`), the loop runs,
+and the path to `lastGoalMotion_` is published again with the recomputed flag. -/
+
+/-- a start motion enters the leaf cell containing its projection and the queue -/
+def addStart (P : Problem S U α ρ) (st : St S U α ρ) (s : S) : St S U α ρ :=
+  let i := st.motions.size
+  let c := stab st.cells (P.project s) st.cells.size 0
+  let m : PMotion S U α :=
+    { start := s, stop := s, control := none, ctl := none, dur := 0, priority := Num.ofNat 0, parent := none,
+      cell := c, helem := some st.heap.next, isSplit := false }
+  let st1 := { st with motions := st.motions.push m,
+                       cells := st.cells.modify c fun cl => { cl with motions := cl.motions ++ [i] } }
+  { st1 with heap := st1.heap.insert klt (score st1 m, i) }
+
+/-- the flags `solve` derives from `lastGoalMotion_` at its head: `(isApproximate, closestDistanceToGoal)` -/
+def headFlags (P : Problem S U α ρ) (st : St S U α ρ) : Bool × α :=
+  match st.lastGoal with
+  | none => (true, P.inf)
+  | some l =>
+    match st.motions[l]? with
+    | none => (true, P.inf)
+    | some m => (!(P.goal m.stop).1, (P.goal m.stop).2)
+
+/-- `control::PDST::solve` called again on the planner state `st` -/
+def resume (P : Problem S U α ρ) (st : St S U α ρ) (pdefHasExact : Bool) (newStarts : List S)
+    (draws : List (Draw S U)) : Result S U α ρ :=
+  let hf := headFlags P st
+  if st.lastGoal.isSome && !hf.1 && pdefHasExact then
+    -- nothing is added to the problem definition
+    { status := .exact, dif := hf.2, path := none, final := st }
+  else
+    let st0 := (newStarts.filter P.valid).foldl (addStart P) { st with isApprox := hf.1, closest := hf.2 }
+    if st0.motions.size = 0 then { status := .invalidStart, dif := P.inf, path := none, final := st0 }
+    else
+      let st1 := run P st0 draws
+      match st1.lastGoal with
+      | none => { status := .timeout, dif := st1.closest, path := none, final := st1 }
+      | some l =>
+        { status := if st1.isApprox then .approximate else .exact, dif := st1.closest,
+          path := assemble P st1.motions l, final := st1 }
+
 end OmplModel.CPDST
